@@ -45,6 +45,10 @@ def main(argv):
 
 
 if __name__ == "__main__":
-    rc = main(sys.argv[1:])
+    try:
+        rc = main(sys.argv[1:])
+    finally:
+        from simkit import common
+        common.cleanup()
     sys.stdout.flush()
     os._exit(rc if isinstance(rc, int) else 0)
